@@ -9,7 +9,7 @@ exit 0: every obligation discharged within the stated bounds, all cover markers 
         sampled paths agree with the native build;
 exit 1: + line `VIOLATION property=<id> replay=<path>` - a counterexample that reproduces against the native build;
 exit 2: inconclusive (budget exhausted, unsupported construct, solver unknown, engine/native discrepancy)."""
-import sys, os, json, time, subprocess, argparse, hashlib, glob, shutil
+import sys, os, json, time, subprocess, argparse, hashlib, glob, shutil, fcntl, contextlib, atexit
 
 ROOT = os.path.dirname(os.path.dirname(os.path.abspath(__file__)))
 sys.path.insert(0, ROOT)
@@ -50,7 +50,36 @@ def cargo_env(extra_rustflags=''):
     return env
 
 
+@contextlib.contextmanager
+def build_lock():
+    """Builds of different check processes share cargo target directories: a build and the reading of its artifacts
+    (IR parsed into memory, replay binary copied to a per-process name) happen under one exclusive lock."""
+    os.makedirs(BUILD, exist_ok=True)
+    with open(os.path.join(BUILD, 'build.lock'), 'w') as f:
+        fcntl.flock(f, fcntl.LOCK_EX)
+        try:
+            yield
+        finally:
+            fcntl.flock(f, fcntl.LOCK_UN)
+
+
 _IR_CACHE = {}
+_MOD_CACHE = {}
+
+
+def load_ir(fset, profile, lto=False):
+    """Build the IR from /repo's working tree and parse it, atomically with respect to other check processes."""
+    key = (fset, profile, lto)
+    if key in _MOD_CACHE:
+        return _MOD_CACHE[key]
+    with build_lock():
+        files = build_ir_lto(fset) if lto else build_ir(fset, profile)
+        hashes = {os.path.basename(f): sha256(f) for f in files}
+        mod, k = lrun.load_modules(files, os.path.join(BUILD, 'parse'))
+    _MOD_CACHE[key] = (mod, hashes)
+    return mod, hashes
+
+
 
 
 def build_ir(fset, profile):
@@ -106,6 +135,34 @@ class BuildError(Exception):
     pass
 
 
+def build_ir_lto(fset):
+    """Whole-program (fat LTO) IR of the `ltomain` binary: one module that also contains the non-generic std functions
+    (core::fmt::write, ...). The final link fails on the undefined verif_* symbols - harmless, the IR is written before."""
+    key = (fset, 'lto')
+    if key in _IR_CACHE:
+        return _IR_CACHE[key]
+    t0 = time.time()
+    cmd = ['cargo', 'rustc', '--offline', '--profile', 'lto', '--bin', 'ltomain', '--manifest-path', os.path.join(HARNESS, 'Cargo.toml')]
+    if FEATURES[fset]:
+        cmd += ['--features', FEATURES[fset]]
+    cmd += ['--', '--emit=llvm-ir']
+    p = subprocess.run(cmd, env=cargo_env(), stdout=subprocess.PIPE, stderr=subprocess.PIPE, text=True)
+    cands = [f for f in glob.glob(os.path.join(BUILD, 'target', 'lto', 'deps', 'ltomain-*.ll')) if os.path.getmtime(f) >= t0 - 1]
+    if not cands:
+        # cargo may have found everything fresh: accept the newest module only if the build did not fail before codegen
+        if 'error[' in p.stderr or 'could not compile `rust-cc`' in p.stderr or 'could not compile `verif-harness` (lib)' in p.stderr:
+            log(p.stderr[-3000:])
+            raise BuildError("LTO build failed for features=%s" % fset)
+        cands = glob.glob(os.path.join(BUILD, 'target', 'lto', 'deps', 'ltomain-*.ll'))
+    if not cands:
+        log(p.stderr[-3000:])
+        raise BuildError("LTO IR not produced for features=%s" % fset)
+    f = max(cands, key=os.path.getmtime)
+    _IR_CACHE[key] = [f]
+    log("[build] LTO IR %s in %.1fs" % (fset, time.time() - t0))
+    return [f]
+
+
 _NATIVE_CACHE = {}
 
 
@@ -113,6 +170,12 @@ def build_native(fset, profile):
     key = (fset, profile)
     if key in _NATIVE_CACHE:
         return _NATIVE_CACHE[key]
+    with build_lock():
+        return _build_native_locked(fset, profile)
+
+
+def _build_native_locked(fset, profile):
+    key = (fset, profile)
     t0 = time.time()
     feats = 'native' + (',' + FEATURES[fset] if FEATURES[fset] else '')
     cmd = ['cargo', 'build', '--offline', '--bin', 'replay', '--message-format=json', '--manifest-path', os.path.join(HARNESS, 'Cargo.toml'),
@@ -133,9 +196,10 @@ def build_native(fset, profile):
                 exe = m['executable']
     if not exe:
         raise BuildError("replay binary not found")
-    # keep a private copy: cargo overwrites the artifact when the feature set changes
-    dst = os.path.join(BUILD, 'replay-%s-%s' % (fset, profile))
+    # keep a private copy: cargo overwrites the artifact when the feature set changes, and other check processes rebuild it
+    dst = os.path.join(BUILD, 'replay-%s-%s.%d' % (fset, profile, os.getpid()))
     shutil.copy2(exe, dst)
+    atexit.register(lambda p=dst: os.path.exists(p) and os.remove(p))
     _NATIVE_CACHE[key] = dst
     log("[build] native %s/%s in %.1fs" % (fset, profile, time.time() - t0))
     return dst
@@ -231,7 +295,7 @@ def run_property(pid, tier, seed):
     t_start = time.time()
     spec = props.PROPS[pid]
     runs = [r for r in spec['runs'] if tier in r.get('tiers', ('quick', 'thorough'))]
-    budget_s = spec.get('budget_s', {}).get(tier, 900 if tier == 'quick' else 3000)
+    budget_s = spec.get('budget_s', {}).get(tier, 1800 if tier == 'quick' else 5400)
     deadline = t_start + budget_s
     known = load_known()
     results = []
@@ -245,15 +309,13 @@ def run_property(pid, tier, seed):
     for r in runs:
         fset, profile, entry = r['features'], r['profile'], r['entry']
         try:
-            files = build_ir(fset, profile)
+            mod, hashes = load_ir(fset, profile, bool(r.get('lto')))
         except BuildError as ex:
             log("BUILD-ERROR", ex)
             inconclusive.append("build failed: %s" % ex)
             status = 2
             break
-        for f in files:
-            ir_files[os.path.basename(f)] = sha256(f)
-        mod, key = lrun.load_modules(files, os.path.join(BUILD, 'parse'))
+        ir_files.update(hashes)
         t0 = time.time()
         try:
             d = lrun.explore_entry(mod, entry, jobs=JOBS, deadline=deadline, path_budget=r.get('paths'), seed=seed,
